@@ -184,6 +184,15 @@ def run(tier, seed):
         # O: -S stops only on a foul
         if early and r["Consumed"] < len(reports) and not fouled_impl:
             ofail.append({"config": text, "reports": reports, "problem": "-S stopped the collector without reporting a foul", "tag": {"kind": "S-success"}})
+        # O: … and only on a foul that stands: the same reports, heard to the end without -S, are a fouled play too
+        # (a `require` clause can only be judged at the end of the play)
+        if early and fouled_impl and r["Consumed"] < len(reports):
+            r0 = impl.call("collectReports", Args={"Text": text}, Reports=[{"Auditor": a, "Code": c} for a, c in reports], EarlyExit=False)
+            rep.count("in-process:-S stop compared with the whole play")
+            if not r0.get("Err") and not r0.get("Panicked") and not r0.get("harnessCrash"):
+                ofail.append({"config": text, "reports": reports, "args": ["-S"],
+                              "problem": "-S stopped the play after %d of %d reports with `%s`, but the whole play is not fouled" % (r["Consumed"], len(reports), r["Err"]),
+                              "tag": {"kind": "S-foul-that-does-not-stand"}})
     rep.sample({"in_process_config": text, "reports": reports, "early": early})
 
     # ---- K/O-C03b end-to-end: exit status and Foul flag of the real binary ------------------------
@@ -314,15 +323,15 @@ def run(tier, seed):
     rep.obligation("O-C03: last-clause-wins on the real parser; exit status / Foul of the real binary on %d plays = specification%s" % (
                        len(plays), "; the Foul flag of result.js after a failed upload excepted (known finding, fails as recorded)" if known_o else ""),
                    "O", not new_o, json.dumps(new_o[:2], default=str)[:1800])
-    if ofail:
-        seen = set()
-        for f in ofail:
-            k = json.dumps(f["tag"], sort_keys=True)
-            if k in seen:
-                continue
-            seen.add(k)
-            rep.violation(f.get("what") or f.get("problem") or "interpretation of %s %s" % (f.get("auditor"), f.get("result")), f, tags=f["tag"])
-    else:
+    seen = set()
+    for f in ofail:
+        k = json.dumps(f["tag"], sort_keys=True)
+        if k in seen:
+            continue
+        seen.add(k)
+        rep.violation(f.get("what") or f.get("problem") or "interpretation of %s %s" % (f.get("auditor"), f.get("result")), f, tags=f["tag"])
+    if not new_o:
+        # (failures that match a known finding do not hide a broken proof or a disagreement)
         if not ok:
             rep.violation("proof obligations of C03 no longer check", {"broken_theorems": info["failed"], "lean_output": info["output"][-3000:]}, nofail=True)
         elif kdis:
